@@ -142,8 +142,9 @@ class CliWorld:
             local = r.u32()
             r.string()
             if r.boolean():
-                sender = [c[1] for c in self.chan_opens if c[4] == local][0]
-                rp.send_app(R.byte(R.MSG_CHANNEL_SUCCESS) + R.u32(sender))
+                senders = [c[1] for c in self.chan_opens if c[4] == local]
+                if senders:
+                    rp.send_app(R.byte(R.MSG_CHANNEL_SUCCESS) + R.u32(senders[0]))
 
     def start(self):
         self.proto.connection_made(self.rt)
